@@ -202,9 +202,17 @@ def upload_buffer_oracle(obs):
     # carries a body held in memory (UploadPartTask of stream uploads, PutObjectTask of non-seekable ones) occupies one of the
     # max_in_memory_upload_chunks slots from the moment it is handed to the stage until it has finished
     mem_tids = {}
+    owners = {}
+    for x in obs.xfers:
+        if x.future is not None:
+            owners.setdefault(x.future.meta.transfer_id, []).append(x)
     for x in obs.xfers:
         if x.label in stream_labels and x.future is not None:
-            # (the manager's own id of the transfer: submission order need not be the order of the spec)
+            # (the manager's own id of the transfer: submission order need not be the order of the spec; calls made from several
+            # threads at once can even be given the SAME id - the counter is not locked - and then the id says nothing)
+            if len(owners[x.future.meta.transfer_id]) > 1:
+                stats['shared_transfer_ids'] = stats.get('shared_transfer_ids', 0) + 1
+                continue
             mem_tids[x.future.meta.transfer_id] = ('UploadPartTask', 'PutObjectTask') if x.spec.get('src') == 'nonseekable' else ('UploadPartTask',)
     out_now = 0
     stats['max_in_memory_body_tasks'] = 0
